@@ -326,7 +326,7 @@ func shuffled(rnd *rand.Rand, s []string) []string {
 
 // genSchema picks keys (from the candidate keys, possibly widened) and extra indexes.
 // must: keys that have to be present
-func genSchema(rnd *rand.Rand, t *Table, must [][]string) Schema {
+func genSchema(rnd *rand.Rand, t *Table, must [][]string, want [][]string) Schema {
 	cands := t.candidateKeys()
 	var sc Schema
 	has := func(list [][]string, x []string) bool {
@@ -358,9 +358,36 @@ func genSchema(rnd *rand.Rand, t *Table, must [][]string) Schema {
 			sc.Keys = append(sc.Keys, k)
 		}
 	}
+	// a wanted index (c1, c2) is there to tempt the optimizer into reading it for "sort c2":
+	// keep other access paths that start with c2 out of the way where possible
+	var avoid []string
+	for _, ix := range want {
+		if len(ix) > 1 {
+			avoid = append(avoid, ix[1])
+		}
+	}
+	var keys [][]string
+	for _, k := range sc.Keys {
+		if len(k) > 1 && contains(avoid, k[0]) {
+			k = append([]string{}, k...)
+			k[0], k[len(k)-1] = k[len(k)-1], k[0]
+		}
+		if !has(keys, k) {
+			keys = append(keys, k)
+		}
+	}
+	sc.Keys = keys
+	for _, ix := range want {
+		if !has(sc.Keys, ix) && !has(sc.Indexes, ix) {
+			sc.Indexes = append(sc.Indexes, ix)
+		}
+	}
 	ni := rnd.Intn(3)
 	for i := 0; i < ni; i++ {
 		ix := shuffled(rnd, t.Cols)[:1+rnd.Intn(min(2, len(t.Cols)))]
+		if contains(avoid, ix[0]) {
+			continue
+		}
 		if !has(sc.Keys, ix) && !has(sc.Indexes, ix) {
 			sc.Indexes = append(sc.Indexes, ix)
 		}
@@ -415,6 +442,9 @@ type Q struct {
 	kinds map[string]Kind // per output column
 	// need: table -> key that must exist for this query's meaning (whole-row min/max)
 	need map[string][]string
+	// want: table -> index that every configuration should have (to steer the optimizer
+	// towards an interesting plan; no influence on the meaning)
+	want map[string][]string
 }
 
 func (q *Q) size() int {
@@ -425,6 +455,17 @@ func (q *Q) size() int {
 		}
 	}
 	return n
+}
+
+func (q *Q) wants(m map[string][]string) {
+	for t, k := range q.want {
+		m[t] = k
+	}
+	for _, s := range []*Q{q.Src, q.L, q.R, q.Def} {
+		if s != nil {
+			s.wants(m)
+		}
+	}
 }
 
 func (q *Q) needs(m map[string][]string) {
@@ -1144,8 +1185,48 @@ func (g *Gen) gen(d int) *Q {
 	return q
 }
 
+// fixedOrder: "<table> where c1 in (v1, v2) [where ...] sort c2" with an index (c1, c2) in every
+// configuration: an index whose leading column is fixed to SEVERAL values does not give the
+// order of the next column
+func (g *Gen) fixedOrder() *Q {
+	t := g.sc.Tables[g.rnd.Intn(len(g.sc.Tables))]
+	cols := shuffled(g.rnd, t.Cols)
+	// c2: preferably a column that is not unique (so it cannot be a key on its own)
+	single := map[string]bool{}
+	for _, k := range t.candidateKeys() {
+		if len(k) == 1 {
+			single[k[0]] = true
+		}
+	}
+	for i, c := range cols {
+		if !single[c] {
+			cols[0], cols[i] = cols[i], cols[0]
+			break
+		}
+	}
+	c2, c1 := cols[0], cols[1]
+	src := g.tableQ(t.Name)
+	src.want = map[string][]string{t.Name: {c1, c2}}
+	d := g.sc.dom[c1]
+	vs := []Val{d[g.rnd.Intn(len(d))], d[g.rnd.Intn(len(d))]}
+	if g.rnd.Intn(3) == 0 {
+		vs = append(vs, d[g.rnd.Intn(len(d))])
+	}
+	var q *Q = &Q{Op: "where", Src: src, E: &Ex{K: "in", A: &Ex{K: "col", C: c1}, Vs: vs}, cols: src.cols, kinds: src.kinds}
+	if g.rnd.Intn(3) == 0 {
+		q = g.where(q)
+	}
+	if g.rnd.Intn(4) == 0 {
+		q = g.extend(q, 1, false)
+	}
+	return &Q{Op: "sort", Src: q, Rev: g.rnd.Intn(3) == 0, Cols: []string{c2}, cols: q.cols, kinds: q.kinds}
+}
+
 // genTop: a query, possibly with a sort on top
 func (g *Gen) genTop(d int) *Q {
+	if g.rnd.Intn(30) == 0 {
+		return g.fixedOrder()
+	}
 	if g.rnd.Intn(25) == 0 {
 		// the documented use of the whole-row min/max: the whole query
 		if q := g.sumWhole(); q != nil {
